@@ -57,9 +57,22 @@ func ztCall(h http.Handler, method, path string, body any) (int, string) {
 		rd = bytes.NewReader(b)
 	}
 	req := httptest.NewRequest(method, path, rd)
-	rec := httptest.NewRecorder()
+	rec := &ztRecorder{ResponseRecorder: httptest.NewRecorder()}
 	h.ServeHTTP(rec, req)
 	return rec.Code, rec.Body.String()
+}
+
+// ztRecorder: gin's c.Stream asks the writer for CloseNotify, which httptest's recorder lacks.
+type ztRecorder struct {
+	*httptest.ResponseRecorder
+	gone chan bool
+}
+
+func (r *ztRecorder) CloseNotify() <-chan bool {
+	if r.gone == nil {
+		r.gone = make(chan bool)
+	}
+	return r.gone
 }
 
 var ztGGUF []byte
